@@ -132,8 +132,46 @@ def tildes():
     return outs
 
 
+def badlits():
+    """EXHAUSTIVE over (kind × length × width × position): literals the grammar accepts and serde_json rejects, with a multi-byte
+    character at every byte offset from 20 to 44 of the literal's text, in every position that takes a literal (the InvalidParam
+    error carries the literal's text and a position – no slicing of it may land inside a character)"""
+    outs = []
+    for pad in range(18, 44):
+        for mb in ("\u00e9", "\u4e2d", "\U0001F600"):
+            body = "a" * pad + mb + mb
+            for lit in ('"' + body + '\t b"', '["' + body + '", \'q\']', '[,"' + body + '"]', '{,"' + body + '":1}', '"' + body + '\n"'):
+                for shape in ("{{foo %s}}", "{{foo k=%s}}", "{{#if (eq %s 1)}}x{{/if}}", "{{> p %s}}"):
+                    if (pad + len(lit) + len(shape)) % 3 == 0 or shape == "{{foo %s}}":
+                        outs.append(shape % lit)
+    return outs
+
+
+def mbstandalone():
+    """EXHAUSTIVE: a tag alone on its (indented) line, with and without `~` on either side, behind text that ENDS in a multi-byte
+    character (with / without the line break between them): trimming the line must cut at character boundaries"""
+    outs = []
+    tags = ["{{@#if a@}}\nB\n{{@/if@}}", "{{#if a}}\nx\n  {{@else@}}\ny\n{{/if}}", "{{@> p@}}", "{{@#> p@}}\nd\n  {{@/p@}}", "{{@!-- c --@}}", "{{@! c @}}",
+            "{{@#*inline \"i\"@}}\nx\n {{@/inline@}}", "{{@*d@}}", "{{{{@raw@}}}}\nx\n{{{{@/raw@}}}}", "{{#if a}}x\n {{@else if b@}}\ny{{/if}}", "{{@#each a as |x|@}}\n{{x}}\n{{@/each@}}"]
+    for mb in ("\u00e9", "\u4e2d", "\U0001F600", "a\u00e9", "\u00e9\u00e9"):
+        for lead in (mb + "\n  ", mb + "\n", mb + "  ", mb + "\r\n\t", mb):
+            for t in tags:
+                parts = t.split("@")
+                k = len(parts) - 1
+                for mask in range(2 ** k if k <= 3 else 4):
+                    fills = [("~" if (mask >> j) & 1 else "") for j in range(k)]
+                    outs.append(lead + "".join(p_ + c for p_, c in zip(parts, fills + [""])) + "\n" + mb)
+    return outs
+
+
 def generate(rng, n, tier="quick"):
     out = []
+    for k, src in enumerate(mbstandalone()):
+        out.append(({"kind": "compile", "src": src, "name": ("t" if k % 3 == 0 else None), "prevent_indent": (k % 3 == 0), "id": "%s-mbsa-%05d" % (ID, k)},
+                    {"mode": "mbsa", "src": src}))
+    for k, src in enumerate(badlits()):
+        out.append(({"kind": "compile", "src": src, "name": None, "prevent_indent": False, "id": "%s-badlit-%05d" % (ID, k)},
+                    {"mode": "badlit", "src": src}))
     for k, src in enumerate(tildes()):
         out.append(({"kind": "compile", "src": src, "name": None, "prevent_indent": False, "id": "%s-tilde-%05d" % (ID, k)},
                     {"mode": "tilde", "src": src}))
